@@ -57,6 +57,24 @@ def ssa_networks(n0, k1, k2):
     return nets
 
 
+def big_networks():
+    """beyond the small alphabets: counts of 50 and more, seven species / eight channels, a 10-channel birth-death ladder"""
+    A, B, C, E = 'A', 'B', 'C', 'E'
+    S = ['S0', 'S1', 'S2', 'S3', 'S4', 'S5', 'S6']
+    return [
+        spec('B1_iso_60', [A, B], {A: 60, B: 55}, [ma([A], [B], 1.5), ma([B], [A], 0.5)]),
+        spec('B2_dimer_120', [A, B], {A: 120, B: 51}, [ma([A, A], [B], 0.01), ma([B], [A, A], 0.7)]),
+        spec('B3_bind_200', [A, B, C], {A: 200, B: 75, C: 50}, [ma([A, B], [C], 0.002), ma([C], [A, B], 0.9), ma([A, B, B], [C, B], 1e-4)]),
+        spec('B4_seven_species', S, dict(zip(S, [3, 2, 0, 1, 2, 0, 1])),
+             [ma([S[0]], [S[1]], 1.5), ma([S[1], S[2]], [S[3]], 0.5), ma([S[3]], [S[1], S[2]], 0.7), ma([S[4], S[4]], [S[5]], 0.4),
+              ma([S[5]], [S[4], S[4], S[6]], 1.1), ma([S[6]], [S[2]], 0.9), ma([S[1]], [S[0]], 0.6), ma([S[6], S[0]], [S[5]], 0.3)]),
+        spec('B5_ten_channels', [A, B, C, E], {A: 2, B: 1, C: 1, E: 1},
+             [ma([A], [B], 1.5), ma([B], [A], 0.5), ma([B], [C], 0.8), ma([C], [B], 0.4), ma([C], [E], 1.2), ma([E], [C], 0.3),
+              ma([E], [A], 0.9), ma([A], [E], 0.2), ma([A, C], [B, E], 0.35), ma([B, E], [A, C], 0.45)]),
+        spec('B6_hill_60', [A, B], {A: 60, B: 50}, [hill('hillpositive', [A], [B], 1.5, 40.0, 2.0, B), ma([B], [A], 0.05)]),
+    ]
+
+
 def reachable(sp, cap=200):
     """states reachable from x0 through net stoichiometry staying non-negative (finite nets)"""
     from .ref import crn
